@@ -167,6 +167,8 @@ pub struct Ctx {
     pub threads: usize,
     pub only: Option<(String, u64)>,
     pub scale: f64,
+    /// restrict one stream to [a, b) and skip all others (bisection of aborts / hangs)
+    pub range: Option<(String, u64, u64)>,
 }
 
 impl Ctx {
@@ -194,6 +196,16 @@ where
         }
         return;
     }
+    let (lo, hi) = match &ctx.range {
+        Some((s, a, b)) => {
+            if s != stream {
+                return;
+            }
+            (*a, (*b).min(n))
+        }
+        None => (0, n),
+    };
+    let n = hi;
     let threads = ctx.threads.max(1) as u64;
     let reports: Vec<Report> = std::thread::scope(|sc| {
         let mut hs = vec![];
@@ -204,7 +216,7 @@ where
                     .stack_size(64 << 20)
                     .spawn_scoped(sc, move || {
                         let mut r = Report::new();
-                        let mut i = t;
+                        let mut i = lo + t;
                         while i < n {
                             f(i, &mut r);
                             i += threads;
